@@ -13,3 +13,17 @@ def regression_selector_qualitative_feature_with_missing_values(w):
     recomputation gives when those features are treated as undefined belong to the finding."""
     return (isinstance(w, dict) and w.get('selector') == 'RegressionSelector' and w.get('dtype') == 'str' and w.get('default_measures') is True
             and w.get('returned') is not None and w.get('returned') == w.get('expected_if_features_with_missing_values_are_undefined'))
+
+
+def min_freq_inverse_rounded_down(w):
+    """D26: ContinuousDiscretizer uses q = round(1 / min_freq) quantiles; when 1/min_freq is rounded DOWN the over-representation threshold 1/q is larger than
+    min_freq, and a value whose frequency f satisfies min_freq <= f < 1/q need not be a boundary.  Only witnesses in which EVERY frequent non-boundary value
+    lies in that gap belong to the finding."""
+    if not isinstance(w, dict) or 'min_freq' not in w or 'values' not in w or 'boundaries' not in w: return False
+    mf = w['min_freq']; q = round(1 / mf)
+    if not (q < 1 / mf): return False
+    vals = [v for v in w['values'] if v is not None]; n = len(w['values'])
+    from collections import Counter
+    cnt = Counter(vals)
+    missing = [v for v, c in cnt.items() if c / n >= mf and v not in w['boundaries']]
+    return len(missing) > 0 and all(cnt[v] / n < 1 / q for v in missing)
